@@ -40,10 +40,15 @@ const (
 type Cred struct {
 	User     string
 	Password string
+	// Hashed, when set, is the hashed password itself (servers may register a user by it).
+	Hashed []byte
 }
 
 // HashedPassword = SHA-256(password || 0x00 || username).
 func (c Cred) HashedPassword() []byte {
+	if c.Hashed != nil {
+		return c.Hashed
+	}
 	p := append([]byte(c.Password), 0)
 	p = append(p, c.User...)
 	h := sha256.Sum256(p)
@@ -66,7 +71,7 @@ func KeyForSlot(c Cred, slot int64) []byte {
 var keyCache = map[string][]byte{}
 
 func aeadFor(c Cred, slot int64) cipher.AEAD {
-	k := fmt.Sprintf("%s\x00%s\x00%d", c.User, c.Password, slot)
+	k := fmt.Sprintf("%s\x00%s\x00%x\x00%d", c.User, c.Password, c.Hashed, slot)
 	key, ok := keyCache[k]
 	if !ok {
 		key = KeyForSlot(c, slot)
